@@ -230,6 +230,33 @@ func c11Run(c c11Case, r *hx.Rec) error {
 		}
 	}
 
+	// (a') the signed bytes follow the metadata: after an in-place edit of the object a caller holds
+	// (a map entry added) the signable bytes are those of the edited metadata and the old signature is void
+	{
+		held := &intoto.Metablock{Signed: c.Meta.Lib(), Signatures: []intoto.Signature{}}
+		k := hx.PoolKey(c.Key)
+		if err := held.Sign(k.Full()); err != nil {
+			return fmt.Errorf("Metablock.Sign failed: %v", err)
+		}
+		if err := held.VerifySignature(k.Pub()); err != nil {
+			return fmt.Errorf("fresh signature does not verify: %v", err)
+		}
+		if edited, lib := c04Mutate(c.Meta, held.Signed, "map"); lib != nil {
+			held.Signed = lib
+			want2, _ := hx.RefCJSON(edited.JV())
+			got2, err2 := held.GetSignableRepresentation()
+			if err2 != nil || !bytes.Equal(got2, want2) {
+				return fmt.Errorf("after an in-place edit the signable bytes are not those of the edited metadata:\n got  %q\n want %q", got2, want2)
+			}
+			if !bytes.Equal(want2, want) {
+				r.Label("inplace-edit")
+				if err := held.VerifySignature(k.Pub()); err == nil {
+					return fmt.Errorf("the signature made before an in-place edit still verifies over the edited metadata")
+				}
+			}
+		}
+	}
+
 	// (d) DSSE: the signed payload is valid JSON of the same fields, which any parser decodes
 	// to the metadata that was set
 	env := &intoto.Envelope{}
